@@ -444,8 +444,10 @@ func (r *pkgRun) evalValue(di, round int) {
 
 	// ---- C01 ----
 	decodedCanon := ""
+	roundTripOK := true
 	if r.on("C01") || r.on("C09") {
 		outcome := "ok"
+		defer func() { _ = outcome }()
 		for ei, e := range encodings {
 			ops := []string{"unmarshal", "mustunmarshal", "decode"}
 			if ei == 0 {
@@ -515,6 +517,7 @@ func (r *pkgRun) evalValue(di, round int) {
 				}
 			}
 		}
+		roundTripOK = outcome == "ok"
 		if r.on("C01") {
 			r.eval("C01", di, bucket, outcome, vs)
 			r.sample("C01", "%s: V=%s encodings=%d B=%s", env.Defs[di].Name, vs, len(encodings), hexB)
@@ -527,7 +530,7 @@ func (r *pkgRun) evalValue(di, round int) {
 		if !multi {
 			bh = hash64(hexB)
 		}
-		r.eng.c09record(r.sc.id, di, round, r.pkg.Options.Bits(), bh, hash64(decodedCanon), multi)
+		r.eng.c09record(r.sc.id, di, round, r.pkg.Options.Bits(), bh, hash64(decodedCanon), multi, roundTripOK)
 		if multi {
 			if p, _ := r.conformant("C09", di, hexB, want); p != "" {
 				r.fail("C09", "mismatch", di, opMarshal, "a conformant encoding of V", hexB, p, "")
@@ -854,6 +857,15 @@ func (r *pkgRun) c08(di int, vs, want string, multi bool, B []byte, hexB string,
 		outcome := rd.Class
 		if !r.badReal("C08", di, op, rd, false) && rd.Class != "err" {
 			r.fail("C08", "oracle", di, op, "err ...", rd.Short(), "", fmt.Sprintf("reader failed after %d of %d bytes but DecodeBebop returned nil", k, len(B)))
+		}
+		// the same failure point with the two error values a real stream produces when it ends early
+		for _, mode := range []string{"peof", "ueof"} {
+			opE := fmt.Sprintf("decode %d %s%d %s", di, mode, k, hexB)
+			rdE := r.real(opE)
+			if !r.badReal("C08", di, opE, rdE, false) && rdE.Class != "err" {
+				r.fail("C08", "oracle", di, opE, "err ...", rdE.Short(), "", fmt.Sprintf("reader ended (%s) after %d of %d bytes but DecodeBebop returned nil", mode, k, len(B)))
+			}
+			r.eval("C08", di, bucket, "decode-"+mode+"-"+rdE.Class, hexB, fmt.Sprint(mode, k))
 		}
 		mop := fmt.Sprintf("decsfail %d %d %s", di, k, hexB)
 		if md, ok := r.model("C08", di, mop); ok && md.Class != rd.Class {
